@@ -19,7 +19,7 @@ Fixpoint list_of_string (s : string) : list ascii :=
   match s with EmptyString => [] | String a r => a :: list_of_string r end.
 Coercion list_of_string : string >-> list.
 
-Definition ascii_eqb (a b : ascii) : bool := N.eqb (b2n a) (b2n b).
+Definition ascii_eqb (a b : ascii) : bool := Ascii.eqb a b.
 
 Fixpoint bytes_eqb (a b : bytes) : bool :=
   match a, b with
@@ -27,3 +27,36 @@ Fixpoint bytes_eqb (a b : bytes) : bool :=
   | x :: a', y :: b' => ascii_eqb x y && bytes_eqb a' b'
   | _, _ => false
   end.
+
+(* ---- C-locale character classes and case folding ---- *)
+Definition in_range (c : ascii) (lo hi : N) : bool := (lo <=? b2n c) && (b2n c <=? hi).
+Definition is_upper (c : ascii) := in_range c 65 90.
+Definition is_digit (c : ascii) := in_range c 48 57.
+(* isspace in the C locale: HT LF VT FF CR SP *)
+Definition is_space (c : ascii) := in_range c 9 13 || ascii_eqb c " ".
+Definition lower (c : ascii) : ascii := if is_upper c then n2b (b2n c + 32) else c.
+Definition lower_bytes (s : bytes) : bytes := map lower s.
+Definition ci_eqb (a b : bytes) : bool := bytes_eqb (lower_bytes a) (lower_bytes b).
+
+Definition c_sp : ascii := " ".
+Definition c_cr : ascii := "013".
+Definition c_lf : ascii := "010".
+Definition c_nul : ascii := "000".
+Definition c_ff : ascii := "255".
+
+(* value of a digit in the given base (10 or 16), None if not a digit of that base *)
+Definition digit_val (base : N) (c : ascii) : option N :=
+  let n := b2n c in
+  if is_digit c then Some (n - 48)
+  else if (base =? 16) && in_range c 97 102 then Some (n - 87)
+  else if (base =? 16) && in_range c 65 70 then Some (n - 55)
+  else None.
+
+(* decimal printing of N, most significant digit first *)
+Fixpoint dec_digits (fuel : nat) (n : N) (acc : bytes) : bytes :=
+  match fuel with
+  | O => acc
+  | S f => let acc' := n2b (48 + n mod 10) :: acc in
+           if n / 10 =? 0 then acc' else dec_digits f (n / 10) acc'
+  end.
+Definition print_dec (n : N) : bytes := dec_digits (S (N.to_nat (N.log2 n))) n [].
